@@ -436,10 +436,6 @@ def one_roundtrip(ctx, m, fmt, rng, codec_ok):
             continue      # already reported with the codec itself as the call site (KEY_F7)
         key = f'{what}:{fmt}:{name}'
         msg = f'{fmt} round trip of a {name}: {what} not preserved ({detail})'
-        if what == 'orientation' and plain and getattr(m, 'sort_t', True) is False:
-            # open defect (reported): the array formats do not record sort_t=False; the class re-sorts the cells on load,
-            # the rows of f2t are exchanged and the stored flags then select the other side
-            key = 'orientation-side:unsorted-cells:npz-dict-json'
         ctx.fail(key, msg, {'mesh': mesh_json(m), 'format': fmt, 'difference': [what, detail]})
 
 
